@@ -264,8 +264,10 @@ def shape_tags(t):
 class Cfg:
     """One generation configuration: target, CLI arguments, and what the model needs to know about it."""
 
-    def __init__(self, ident, target, args, std=None, omit=False, overrides=None, compile_ok=True):
+    def __init__(self, ident, target, args, std=None, omit=False, overrides=None, compile_ok=True, only=None, cause=None):
         self.ident, self.target, self.args, self.std, self.omit = ident, target, list(args), std, omit
+        self.only = only      # restrict to universes whose name contains this
+        self.cause = cause    # every diagnostic under this configuration belongs to this (known) defect class
         self.overrides = overrides or {}
         self.compile_ok = compile_ok
         self.lang = None
@@ -274,9 +276,12 @@ class Cfg:
         if self.lang is None:
             from nunavut.lang import LanguageContextBuilder, Language
             b = LanguageContextBuilder(include_experimental_languages=True).set_target_language(self.target)
-            for k, v in self.overrides.items():
-                b.set_target_language_configuration_override(k, v)
             opts = {}
+            for k, v in self.overrides.items():
+                if k == "options":
+                    opts.update(v)
+                else:
+                    b.set_target_language_configuration_override(k, v)
             if self.std:
                 opts["std"] = self.std
             b.set_target_language_configuration_override(Language.WKCV_LANGUAGE_OPTIONS, opts)
@@ -361,6 +366,13 @@ def configurations(quick):
         cs.append(Cfg("cpp/c++20+asserts", "cpp", ["--enable-serialization-asserts"], std="c++20"))
         cs.append(Cfg("cpp/c++17-pmr+allopts", "cpp", all_opts, std="c++17-pmr"))
         cs.append(Cfg("cpp/cetl++14-17", "cpp", [], std="cetl++14-17", compile_ok=False))
+    # a documented value of ctor_convention that the generated types do not support themselves (finding): stress corpus only
+    lead = {"options": {"variable_array_type_include": "<vector>", "variable_array_type_template": "std::vector<{TYPE}, {REBIND_ALLOCATOR}>",
+                        "variable_array_type_constructor_args": "", "allocator_include": "<memory_resource>",
+                        "allocator_type": "std::pmr::polymorphic_allocator", "allocator_is_default_constructible": True,
+                        "ctor_convention": "uses-leading-allocator"}}
+    cs.append(Cfg("cpp/c++17+leading-allocator+omit", "cpp", [], std="c++17", omit=True, overrides=lead, only="corpus:stress",
+                  cause="cpp-uses-leading-allocator"))
     # ---- Python
     cs.append(Cfg("py/default", "py", []))
     cs.append(Cfg("py/omit", "py", [], omit=True))
@@ -527,6 +539,8 @@ def classify(cfg, cmd, first, guard_collision):
         return "include-guard-collision"
     if re.search(r"integer constant is so large that it is unsigned|integer literal is too large to be represented in a signed integer type", first):
         return "int64-min-literal"
+    if re.search(r"magnitude of floating-point constant too large|floating constant exceeds range", first):
+        return "float-constant-literal-range"
     if re.match(r"\s*nunavut/support/", first.strip()):
         return "support-header:" + cfg.ident
     m = re.search(r"\[-W(?:error[=,])?-?W?([\w+-]+)\]", first)
@@ -654,7 +668,7 @@ def run(ctx: common.Ctx):
     # ---- universes -----------------------------------------------------------------------------------------------
     unis = corpus_universes()
     ncorpus = len(unis)
-    unis += generated_universes(ctx, n_gen=1 if quick else 8, n_simple=2 if quick else 8, n_types=18 if quick else 40)
+    unis += generated_universes(ctx, n_gen=1 if quick else 5, n_simple=2 if quick else 5, n_types=18 if quick else 30)
     good = []
     for u in unis:
         if u.read():
@@ -697,6 +711,8 @@ def run(ctx: common.Ctx):
     gen_jobs = []
     for ui, u in enumerate(unis):
         for c in cfgs:
+            if c.only and c.only not in u.name:
+                continue
             out = ctx.scratch / "out" / f"u{ui}" / c.ident.replace("/", "_")
             out.mkdir(parents=True)
             gen_jobs.append((u, c, out))
@@ -902,7 +918,7 @@ def run(ctx: common.Ctx):
             inc_set = [header] + sorted(closure(header))
             gs = [collided[x] for x in inc_set if x in collided]
             gc = len(set(gs)) < len(gs)      # the translation unit contains two headers with one include guard
-            cause = classify(c, cmd, first, gc)
+            cause = c.cause or classify(c, cmd, first, gc)
             first_rel = first.replace(str(outdir) + "/", "")
             ctx.fail({"kind": "diagnostic", "cause": cause},
                      f"{header} ({c.ident}) alone in a translation unit: {cmd[0]} {cmd[1]}: {first_rel}",
